@@ -11,6 +11,11 @@ import ast
 
 from .model import call_name, is_inf_literal, unparse
 
+
+def order_precedes(fn, a, b):
+    from .scans import precedes
+    return precedes(fn, a, b)
+
 DATE_FIELDS = ("arrival_date", "exit_date", "service_start_date", "service_end_date", "reneging_date", "class_change_date",
                "next_end_service_date", "date_last_update", "original_service_start_date")
 DUR_FIELDS = ("service_time", "time_left", "original_service_time")
@@ -26,7 +31,36 @@ class Evaluator:
             if isinstance(n, ast.Assign) and len(n.targets) == 1 and isinstance(n.targets[0], ast.Name):
                 counts[n.targets[0].id] = counts.get(n.targets[0].id, 0) + 1
                 self.locals.setdefault(n.targets[0].id, []).append(n.value)
+            elif isinstance(n, ast.Assign) and len(n.targets) == 1 and isinstance(n.targets[0], (ast.Tuple, ast.List)) and all(isinstance(t, ast.Name) for t in n.targets[0].elts):
+                # tuple unpacking: element-wise when the value is a display, else the i-th component of the value (e.g. of a helper's returned tuple)
+                for i, t in enumerate(n.targets[0].elts):
+                    if isinstance(n.value, (ast.Tuple, ast.List)) and len(n.value.elts) == len(n.targets[0].elts):
+                        self.locals.setdefault(t.id, []).append(n.value.elts[i])
+                    else:
+                        self.locals.setdefault(t.id, []).append(("component", n.value, i))
+        # `x.<date field> = tmp`: afterwards tmp is that date
+        self.stored_as = {}
+        for n in ast.walk(fn):
+            if isinstance(n, ast.Assign) and len(n.targets) == 1 and isinstance(n.targets[0], ast.Attribute) and isinstance(n.value, ast.Name) \
+                    and n.targets[0].attr in DATE_FIELDS and counts.get(n.value.id) == 1:
+                self.stored_as.setdefault(n.value.id, (n, n.targets[0].attr))
         self.depth = 0
+
+    def component(self, value, i):
+        if isinstance(value, ast.Call) and isinstance(value.func, ast.Attribute) and isinstance(value.func.value, ast.Name) and value.func.value.id == "self":
+            r = self.view.resolve(value.func.attr)
+            if r is not None and self.depth < 4:
+                sub = Evaluator(self.view, r[1])
+                sub.depth = self.depth + 1
+                out = frozenset()
+                for ret in [x for x in ast.walk(r[1]) if isinstance(x, ast.Return)]:
+                    if isinstance(ret.value, (ast.Tuple, ast.List)) and i < len(ret.value.elts):
+                        out |= sub.ev(ret.value.elts[i])
+                    else:
+                        out |= frozenset(["OTHER:%s[%d]" % (unparse(value), i)])
+                if out:
+                    return out
+        return frozenset(["OTHER:%s[%d]" % (unparse(value), i)])
 
     def ev(self, n):
         """-> frozenset of tags"""
@@ -50,12 +84,18 @@ class Evaluator:
                 return frozenset(["COPY:" + n.attr])
             return frozenset(["OTHER:" + txt])
         if isinstance(n, ast.Name):
+            out = None
             if n.id in self.locals and self.depth < 6:
                 self.depth += 1
                 out = frozenset()
                 for v in self.locals[n.id]:
-                    out |= self.ev(v)
+                    out |= self.component(v[1], v[2]) if isinstance(v, tuple) else self.ev(v)
                 self.depth -= 1
+                if out <= {"NOW", "NOW+DUR", "INF", "SENT", "DUR", "START+DUR"}:
+                    return out
+            if n.id in self.stored_as and order_precedes(self.fn, self.stored_as[n.id][0], n) and not any(n is x for x in ast.walk(self.stored_as[n.id][0])):
+                return frozenset(["COPY:" + self.stored_as[n.id][1]])
+            if out is not None:
                 return out
             return frozenset(["OTHER:" + txt])
         if isinstance(n, ast.Subscript):
